@@ -186,10 +186,18 @@ pub enum PendingCompletion {
     Return(Guarded),
     /// Rethrow this exception after finally completes
     Throw(Guarded),
-    /// Break to target after finally completes
-    Break { target: usize, try_depth: u8 },
-    /// Continue to target after finally completes
-    Continue { target: usize, try_depth: u8 },
+    /// Break to target after finally completes (leaving block scopes down to scope_depth)
+    Break {
+        target: usize,
+        try_depth: u8,
+        scope_depth: usize,
+    },
+    /// Continue to target after finally completes (leaving block scopes down to scope_depth)
+    Continue {
+        target: usize,
+        try_depth: u8,
+        scope_depth: usize,
+    },
 }
 
 /// A pending completion inside a saved state (Clone-able version without Guard)
@@ -198,8 +206,16 @@ pub enum PendingCompletion {
 pub enum SavedCompletion {
     Return(JsValue),
     Throw(JsValue),
-    Break { target: usize, try_depth: u8 },
-    Continue { target: usize, try_depth: u8 },
+    Break {
+        target: usize,
+        try_depth: u8,
+        scope_depth: usize,
+    },
+    Continue {
+        target: usize,
+        try_depth: u8,
+        scope_depth: usize,
+    },
 }
 
 impl PendingCompletion {
@@ -214,13 +230,23 @@ impl PendingCompletion {
         match self {
             PendingCompletion::Return(g) => SavedCompletion::Return(keep(&g.value)),
             PendingCompletion::Throw(g) => SavedCompletion::Throw(keep(&g.value)),
-            PendingCompletion::Break { target, try_depth } => SavedCompletion::Break {
+            PendingCompletion::Break {
+                target,
+                try_depth,
+                scope_depth,
+            } => SavedCompletion::Break {
                 target: *target,
                 try_depth: *try_depth,
+                scope_depth: *scope_depth,
             },
-            PendingCompletion::Continue { target, try_depth } => SavedCompletion::Continue {
+            PendingCompletion::Continue {
+                target,
+                try_depth,
+                scope_depth,
+            } => SavedCompletion::Continue {
                 target: *target,
                 try_depth: *try_depth,
+                scope_depth: *scope_depth,
             },
         }
     }
@@ -232,12 +258,24 @@ impl SavedCompletion {
         match self {
             SavedCompletion::Return(v) => PendingCompletion::Return(Guarded::from_value(v, heap)),
             SavedCompletion::Throw(v) => PendingCompletion::Throw(Guarded::from_value(v, heap)),
-            SavedCompletion::Break { target, try_depth } => {
-                PendingCompletion::Break { target, try_depth }
-            }
-            SavedCompletion::Continue { target, try_depth } => {
-                PendingCompletion::Continue { target, try_depth }
-            }
+            SavedCompletion::Break {
+                target,
+                try_depth,
+                scope_depth,
+            } => PendingCompletion::Break {
+                target,
+                try_depth,
+                scope_depth,
+            },
+            SavedCompletion::Continue {
+                target,
+                try_depth,
+                scope_depth,
+            } => PendingCompletion::Continue {
+                target,
+                try_depth,
+                scope_depth,
+            },
         }
     }
 }
@@ -1641,6 +1679,9 @@ impl BytecodeVM {
         frame: TrampolineFrame,
         return_value: JsValue,
     ) {
+        // A return from inside blocks leaves their scopes (and environment guards) behind
+        self.unwind_scopes_to(interp, 0);
+
         // Release current registers back to pool before restoring
         let current_registers = mem::take(&mut self.registers);
         self.release_registers(current_registers);
@@ -2563,10 +2604,24 @@ impl BytecodeVM {
             }
 
             // NOTE: review
-            Op::Break { target, try_depth } => self.execute_break(target as usize, try_depth),
+            Op::Break {
+                target,
+                try_depth,
+                scopes,
+            } => {
+                let scope_depth = self.saved_env_stack.len().saturating_sub(scopes as usize);
+                self.execute_break(interp, target as usize, try_depth, scope_depth)
+            }
 
             // NOTE: review
-            Op::Continue { target, try_depth } => self.execute_continue(target as usize, try_depth),
+            Op::Continue {
+                target,
+                try_depth,
+                scopes,
+            } => {
+                let scope_depth = self.saved_env_stack.len().saturating_sub(scopes as usize);
+                self.execute_continue(interp, target as usize, try_depth, scope_depth)
+            }
 
             // ═══════════════════════════════════════════════════════════════════════════
             // Variable Access
@@ -3345,13 +3400,21 @@ impl BytecodeVM {
                             // Re-throw the exception after finally
                             return Err(JsError::ThrownValue { guarded });
                         }
-                        PendingCompletion::Break { target, try_depth } => {
+                        PendingCompletion::Break {
+                            target,
+                            try_depth,
+                            scope_depth,
+                        } => {
                             // Continue with the break (recursively handles nested finally blocks)
-                            return self.execute_break(target, try_depth);
+                            return self.execute_break(interp, target, try_depth, scope_depth);
                         }
-                        PendingCompletion::Continue { target, try_depth } => {
+                        PendingCompletion::Continue {
+                            target,
+                            try_depth,
+                            scope_depth,
+                        } => {
                             // Continue with the continue (recursively handles nested finally blocks)
-                            return self.execute_continue(target, try_depth);
+                            return self.execute_continue(interp, target, try_depth, scope_depth);
                         }
                     }
                 }
@@ -6075,6 +6138,9 @@ impl BytecodeVM {
             // Pop the try handler (we're exiting this try block)
             self.try_stack.truncate(handler_idx);
 
+            // The finally block runs in the scope of its try statement
+            self.unwind_scopes_to(interp, handler.scope_depth);
+
             // Jump to the finally block
             self.ip = handler.finally_ip;
 
@@ -6099,9 +6165,25 @@ impl BytecodeVM {
         }
     }
 
-    /// Execute a break, running any pending finally blocks first
+    /// Leave block scopes until only `depth` of the current frame remain
+    fn unwind_scopes_to(&mut self, interp: &mut Interpreter, depth: usize) {
+        while self.saved_env_stack.len() > depth {
+            if let Some(saved_env) = self.saved_env_stack.pop() {
+                interp.pop_scope(saved_env);
+            }
+        }
+    }
+
+    /// Execute a break, running any pending finally blocks first.
+    /// `scope_depth` is the number of block scopes of this frame that stay open at the target.
     // NOTE: review
-    fn execute_break(&mut self, target: usize, try_depth: u8) -> Result<OpResult, JsError> {
+    fn execute_break(
+        &mut self,
+        interp: &mut Interpreter,
+        target: usize,
+        try_depth: u8,
+        scope_depth: usize,
+    ) -> Result<OpResult, JsError> {
         // Check if there's a try handler with a finally block between us and the target
         let target_try_depth = try_depth as usize;
 
@@ -6122,10 +6204,17 @@ impl BytecodeVM {
                 .ok_or_else(|| JsError::internal_error("Missing try handler"))?;
 
             // Save the pending break
-            self.pending_completion = Some(PendingCompletion::Break { target, try_depth });
+            self.pending_completion = Some(PendingCompletion::Break {
+                target,
+                try_depth,
+                scope_depth,
+            });
 
             // Pop the try handler (we're exiting this try block)
             self.try_stack.truncate(handler_idx);
+
+            // The finally block runs in the scope of its try statement
+            self.unwind_scopes_to(interp, handler.scope_depth.max(scope_depth));
 
             // Jump to the finally block
             self.ip = handler.finally_ip;
@@ -6136,13 +6225,21 @@ impl BytecodeVM {
         // No finally block, do normal break (just jump)
         // Also pop try handlers down to the target level
         self.try_stack.truncate(target_try_depth);
+        self.unwind_scopes_to(interp, scope_depth);
         self.ip = target;
         Ok(OpResult::Continue)
     }
 
-    /// Execute a continue, running any pending finally blocks first
+    /// Execute a continue, running any pending finally blocks first.
+    /// `scope_depth` is the number of block scopes of this frame that stay open at the target.
     // NOTE: review
-    fn execute_continue(&mut self, target: usize, try_depth: u8) -> Result<OpResult, JsError> {
+    fn execute_continue(
+        &mut self,
+        interp: &mut Interpreter,
+        target: usize,
+        try_depth: u8,
+        scope_depth: usize,
+    ) -> Result<OpResult, JsError> {
         // Check if there's a try handler with a finally block between us and the target
         let target_try_depth = try_depth as usize;
 
@@ -6163,10 +6260,17 @@ impl BytecodeVM {
                 .ok_or_else(|| JsError::internal_error("Missing try handler"))?;
 
             // Save the pending continue
-            self.pending_completion = Some(PendingCompletion::Continue { target, try_depth });
+            self.pending_completion = Some(PendingCompletion::Continue {
+                target,
+                try_depth,
+                scope_depth,
+            });
 
             // Pop the try handler (we're exiting this try block)
             self.try_stack.truncate(handler_idx);
+
+            // The finally block runs in the scope of its try statement
+            self.unwind_scopes_to(interp, handler.scope_depth.max(scope_depth));
 
             // Jump to the finally block
             self.ip = handler.finally_ip;
@@ -6177,6 +6281,7 @@ impl BytecodeVM {
         // No finally block, do normal continue (just jump)
         // Also pop try handlers down to the target level
         self.try_stack.truncate(target_try_depth);
+        self.unwind_scopes_to(interp, scope_depth);
         self.ip = target;
         Ok(OpResult::Continue)
     }
